@@ -73,6 +73,8 @@ class LineSched:
         self.line_budget = line_budget
         self.abort = False
         self.deadlock = False
+        self.stuck = None
+        self.watchdog = 10.0
 
     def add(self, name, fn):
         self.tasks.append(_Task(name, fn))
@@ -146,10 +148,36 @@ class LineSched:
             history.append(name)
             self.current = t
             t.sem.release()
-            self.main_sem.acquire()
+            if not self.main_sem.acquire(timeout=self.watchdog):
+                # the running task neither yielded nor finished: it is blocked on something the scheduler does not know
+                # (a real lock created behind its back, real I/O).  Give up on this schedule instead of hanging.
+                self.stuck = f"task {t.name} did not yield within {self.watchdog}s (blocked outside the scheduler)"
+                self.abort = True
+                break
+        if self.stuck:
+            self.deadlock = True
+            for t in self.tasks:      # let parked tasks unwind; the stuck one is a daemon thread and is abandoned
+                if not t.done and t is not self.current:
+                    t.sem.release()
+            return history
         for t in self.tasks:
             t.thread.join(5)
         return history
+
+
+class ThreadingShim:
+    """stands in for the `threading` module inside the code under test: locks created while the schedule runs (lazily,
+    per call...) are virtual as well; everything else is the real module"""
+    def __init__(self, sched):
+        self._sched = sched
+
+    def Lock(self):
+        return VLock(self._sched)
+
+    RLock = Lock
+
+    def __getattr__(self, name):
+        return getattr(threading, name)
 
 
 def virtualize_locks(obj, sched):
